@@ -105,6 +105,7 @@ CexpAfter(p, vals) ==
                         Upd(S \ {c}, IF vals[c].exact /\ vals[c].ordered /\ ~vals[c].weak THEN UpdF(f, p.nodes[c].prefix, vals[c].sh) ELSE f)
   IN Upd(CacheNodes(p), cexp)
 
+Lossy(r) == Has(r, "loss") /\ r.loss
 FaultNodes(p) == {n \in DOMAIN p.nodes : "fault" \in DOMAIN p.nodes[n]}
 NoBind == [bind |-> FALSE, v |-> 0, cm |-> 0, cf |-> 0, cok |-> FALSE]
 
@@ -133,6 +134,9 @@ JudgeRun(r, ev) ==
           /\ (ev.err # "" \/ Has(ev, "panic") \/ (ev.prog.nodes[CHOOSE x \in FaultNodes(ev.prog) : TRUE].fault.persist))
        THEN [fails |-> JudgeFaulty(r, ev)] @@ NoBind
   ELSE IF Has(ev, "panic") THEN [fails |-> <<Fail(r, ev, "RunPanicked", ev.panic)>>] @@ NoBind
+  \* machines were killed (C02): finitely many losses, replacements can be started, so the run must complete
+  ELSE IF ev.err # "" /\ Lossy(r) THEN
+       [fails |-> <<Fail(r, ev, IF ev.ctxerr THEN "NeverBlocksUnderMachineLoss" ELSE "CompletesWhenLossesStop", ev.err)>>] @@ NoBind
   ELSE IF ev.err # "" THEN [fails |-> <<Fail(r, ev, "FailureFreeRunSucceeds", ev.err)>>] @@ NoBind
   ELSE
   LET p == ev.prog
@@ -160,10 +164,12 @@ JudgeRun(r, ev) ==
       \* the results it was built from (each once)
       expMap == ownMap + SumSeq([k \in DOMAIN SeqOfSet2(depNames) |-> env[SeqOfSet2(depNames)[k]].cm])
       expFil == ownFil + SumSeq([k \in DOMAIN SeqOfSet2(depNames) |-> env[SeqOfSet2(depNames)[k]].cf])
-      cntOK == ~(ownOK /\ depsOK) \/ (ev.cnt_map = expMap /\ ev.cnt_filter = expFil)
+      \* (recomputation after a machine loss runs user functions again)
+      cntOK == Lossy(r) \/ ~(ownOK /\ depsOK) \/ (ev.cnt_map = expMap /\ ev.cnt_filter = expFil)
       outObs == ObsShards(ev, TapKey(p, p.out), out.n)
       \* pin the result to the rows of its first evaluation when they were observed
-      pinned == IF outObs # <<>> /\ Allowed(out, outObs) /\ p.nodes[p.out + 1].op # "scan"
+      \* (not under machine loss: a recomputed output need only have the rows of a failure-free run)
+      pinned == IF ~Lossy(r) /\ outObs # <<>> /\ Allowed(out, outObs) /\ p.nodes[p.out + 1].op # "scan"
                 THEN [out EXCEPT !.exact = TRUE, !.sh = outObs, !.weak = FALSE, !.all = ConcatAll(outObs)]
                 ELSE out
   IN [fails |-> AllTaps(p.taps)
@@ -177,9 +183,11 @@ JudgeScan(r, ev) ==
   ELSE IF Has(ev, "panic") THEN <<Fail(r, ev, "ScanPanicked", ev.panic)>>
   ELSE IF ev.err # "" THEN
        \* a direct scan of a result whose outputs are gone may report an error
-       (IF ev.res \in gone THEN <<>> ELSE <<Fail(r, ev, "ScanSucceeds", ev.err)>>)
+       (IF ev.res \in gone THEN <<>>
+        ELSE IF Lossy(r) THEN <<Fail(r, ev, IF ev.ctxerr THEN "NeverBlocksUnderMachineLoss" ELSE "ScanCompletesWhenLossesStop", ev.err)>>
+        ELSE <<Fail(r, ev, "ScanSucceeds", ev.err)>>)
   ELSE IF AllowedScan(env[ev.res].v, ev.rows) THEN <<>>
-  ELSE <<Fail(r, ev, "ScanRowsAsFirstEvaluation", ev.res)>>
+  ELSE <<Fail(r, ev, IF Lossy(r) THEN "ScanRowsAsFailureFreeRun" ELSE "ScanRowsAsFirstEvaluation", ev.res)>>
 
 Runnable(ev) == ev.do = "run" /\ ~Has(ev, "skipped") /\ ~Has(ev, "panic") /\ (ev.err = "" \/ Has(ev, "lenient"))
                 /\ ~(Has(ev, "fault_fired") /\ ev.fault_fired > 0 /\ FaultNodes(ev.prog) # {} /\ ev.prog.nodes[CHOOSE x \in FaultNodes(ev.prog) : TRUE].fault.persist)
